@@ -140,3 +140,24 @@ def write_cfg(text: str) -> str:
     with os.fdopen(fd, "w") as f:
         f.write(text)
     return path
+
+
+def tlaps_prove(module: str, timeout: int = 1800) -> dict:
+    """Run the TLA+ proof system on spec/<module> in a scratch copy (tlapm writes its cache next to the file).
+    -> {"obligations": n, "proved": bool, "wall": s}; raises MachineryError when an obligation is left unproved."""
+    import re as _re
+    d = tempfile.mkdtemp(prefix="tlaps-", dir=scratch_root())
+    shutil.copy(os.path.join(SPEC_DIR, module), d)
+    t0 = time.time()
+    try:
+        p = subprocess.run(["tlapm", module], cwd=d, stdout=subprocess.PIPE, stderr=subprocess.STDOUT, text=True,
+                           timeout=timeout)
+        out = p.stdout
+    except subprocess.TimeoutExpired as ex:
+        raise MachineryError(f"tlapm timed out on {module}")
+    finally:
+        shutil.rmtree(d, ignore_errors=True)
+    m = _re.search(r"All (\d+) obligations? proved", out)
+    if not m:
+        raise MachineryError(f"tlapm did not prove {module}:\n" + "\n".join(out.splitlines()[-25:]))
+    return {"obligations": int(m.group(1)), "proved": True, "wall": round(time.time() - t0, 1)}
